@@ -5,6 +5,20 @@ Run when nothing else is editing /verif (it uses the registered, non-dev build).
 import glob, json, os, re, subprocess, sys
 ROOT = os.path.dirname(os.path.dirname(os.path.abspath(__file__)))
 want = set(sys.argv[1:])
+def find_base(patch):
+    """newest commit of /repo main at which the patch applies (later fix: commits may have changed its context)"""
+    wt = "/tmp/reseed-findbase"
+    subprocess.run(["git", "-C", "/repo", "worktree", "add", "-q", "--detach", wt, "HEAD"], capture_output=True)
+    try:
+        for c in subprocess.run(["git", "-C", "/repo", "rev-list", "HEAD"], capture_output=True, text=True).stdout.split():
+            subprocess.run(["git", "-C", wt, "checkout", "-q", "--detach", c], capture_output=True)
+            if subprocess.run(["git", "-C", wt, "apply", "--check", patch], capture_output=True).returncode == 0:
+                return c[:7]
+    finally:
+        subprocess.run(["git", "-C", "/repo", "worktree", "remove", "--force", wt], capture_output=True)
+    return None
+
+
 rows = []
 for d in sorted(glob.glob(os.path.join(ROOT, "seeded", "C*-*")), key=lambda p: (p.split("/")[-1].split("-")[0], int(p.split("-")[-1]))):
     name = os.path.basename(d); pid = name.split("-")[0]
@@ -16,6 +30,8 @@ for d in sorted(glob.glob(os.path.join(ROOT, "seeded", "C*-*")), key=lambda p: (
         return subprocess.run(cmd, capture_output=True, text=True).stdout
     out = run()
     used_base = "HEAD"
+    if "PATCH-DOES-NOT-APPLY" in out and not meta.get("base"):
+        meta["base"] = find_base(os.path.join(d, "patch.diff")) or ""
     if "PATCH-DOES-NOT-APPLY" in out and meta.get("base"):
         out = run(meta["base"]); used_base = meta["base"]
     lines = [l for l in out.splitlines() if l.strip()]
